@@ -43,6 +43,8 @@ RULES = {
                 "the derived == is structural equality, which is Rust's semantics of derive(PartialEq))",
     "R-closure": "a closure `|a| EXPR` named by a directive becomes `|a| -> (r: T) ensures .. { EXPR }` "
                  "(ghost annotation; EXPR verbatim) because Verus does not infer closure postconditions",
+    "R-block": "a contiguous statement range of a function (named by two regexes) is lifted verbatim into a "
+               "hand-written wrapper fn whose parameters are the variables it reads; flagged weaker than function extraction",
     "R-self": "`Self::` in inherent-emitted trait methods left as is",
 }
 
@@ -509,6 +511,65 @@ def build_unit(template_path, repo, canary=False):
                                 sha_before=sha(raw), sha_after=sha(txt), rules=sorted(rules),
                                 line_lo=lo, line_hi=cur_line() - 1, contracted=False))
             i += 1
+        elif d.startswith("block "):
+            mm = re.match(r"block\s+(\S+)\s+(.*?)\s+/(.*?)/\s+/(.*)/\s*$", d)
+            if not mm:
+                raise ExtractError("bad block directive: " + d)
+            relfile, path, rx_a, rx_b = mm.group(1), mm.group(2), mm.group(3), mm.group(4)
+            spec = dict(ret=None, sig="", loops={}, ats=[], rename=None, closures=[], iters={})
+            i += 1
+            section = None
+            buf = []
+
+            def flush_b():
+                if section is None:
+                    return
+                txt = "\n".join(buf)
+                if section[0] == "loop":
+                    spec["loops"][section[1]] = txt
+                elif section[0] == "at":
+                    spec["ats"].append((section[1], section[2], txt, section[3]))
+            while i < len(lines):
+                t = lines[i].strip()
+                if t.startswith("//@"):
+                    dd = t[3:].strip()
+                    if dd == "end":
+                        flush_b()
+                        i += 1
+                        break
+                    flush_b()
+                    buf = []
+                    if dd.startswith("loop "):
+                        section = ("loop", int(dd.split()[1]))
+                        lm = re.search(r"\biter\s+(\w+)", dd)
+                        if lm:
+                            spec["iters"][int(dd.split()[1])] = lm.group(1)
+                    elif dd.startswith("at ") or dd.startswith("after "):
+                        m2 = re.match(r"(at|after)\s+(\d+)\s+/(.*)/\s*$", dd)
+                        section = ("at", int(m2.group(2)), m2.group(3), "before" if m2.group(1) == "at" else "after")
+                    else:
+                        raise ExtractError("bad directive in block: " + dd)
+                else:
+                    buf.append(lines[i])
+                i += 1
+            name, raw_fn = locate(repo, relfile, path)
+            fm = mask(raw_fn)
+            ma = re.search(rx_a, fm)
+            mb = re.compile(rx_b).search(fm, ma.end()) if ma else None
+            if not ma or not mb:
+                raise ExtractError("lost anchor: block /%s/../%s/ not found in %s" % (rx_a, rx_b, path))
+            raw = raw_fn[ma.start():mb.end()]
+            txt, rules = rewrite(raw, "stmt")
+            wrapped = splice_fn("fn vx_blk() {\n" + txt + "\n}", spec)
+            txt = wrapped[wrapped.index("{") + 1:wrapped.rindex("}")]
+            rules.add("R-block")
+            rules.add("R-sig")
+            u.clauses += sum(len(re.findall(r",\s*$", t, re.M)) for t in spec["loops"].values())
+            lo = cur_line()
+            out.append(txt)
+            u.items.append(dict(kind="block", file=relfile, path=path + " [block]", name=name + "[block]", props=u.props,
+                                sha_before=sha(raw), sha_after=sha(txt), rules=sorted(rules),
+                                line_lo=lo, line_hi=cur_line() - 1, contracted=False))
         elif d.startswith("fn "):
             toks = d[3:].strip()
             props = u.props
